@@ -360,6 +360,15 @@ def judge(e, ctx):
     eps = max(ref.eps, R.eps_of(D.dtype) if D.dtype.kind in "fc" else 0.0)
     ok, d = R.close(D, ref.M, ref.Bd, ref.T.dtype, eps=eps)
     out.append(("value", ok, d))
+    if is_op and ok and ctx.scribble(D, got):
+        # the dense matrix handed back is the caller's: after the caller has overwritten it, the operator still densifies to
+        # the matrix it represents
+        D2 = ctx.call(got.to_dense)
+        if is_err(D2):
+            out.append(("value-again-after-caller-overwrote-result", False, {"error": repr(D2)}))
+        else:
+            ok_, d_ = R.close(np.asarray(D2), ref.M, ref.Bd, ref.T.dtype, eps=eps)
+            out.append(("value-again-after-caller-overwrote-result", ok_, d_))
     if is_op and ok:
         x = P.operand(7, (ref.M.shape[1], 2), "f8")
         y = ctx.call(lambda: got @ x)
